@@ -4,6 +4,7 @@ CONSTANTS
   Tries = 2
   MaxReplies = 1
   Rapid = FALSE
+  Inform = FALSE
   EmitCases = TRUE
 INVARIANTS Emit
 CHECK_DEADLOCK FALSE
